@@ -45,11 +45,30 @@ const c02Finding = "C02-positional-capture"
 // terms
 
 type c02_ct struct {
-	K  string // i n F ch v + fn c l x m k r d a ret
-	S  string // name / route kind
+	K  string // i n F ch v + fn c l x m k r d a ret | if sw case default loop b
+	S  string // name / route kind / loop kind
 	I  int64
 	Ps []string
+	Is []int64 // loop: the items of the list a range loop iterates
 	C  []*c02_ct
+}
+
+// block statements (only generated inside functions):
+//   if    C = cond, then-block (K "b"), else-block (K "b", empty = no else)
+//   sw    C = subject, then K "case" (I = the literal, C = statements) …, at most one K "default" LAST
+//   loop  S = for3 | cond | range1 | range2 | forin | once, Ps = the loop's names (cond: the counter),
+//         I = bound, Is = items, C = body block (K "b")
+func c02_cB(ss ...*c02_ct) *c02_ct { return &c02_ct{K: "b", C: ss} }
+func c02_cIf(c *c02_ct, t, e []*c02_ct) *c02_ct {
+	return &c02_ct{K: "if", C: []*c02_ct{c, c02_cB(t...), c02_cB(e...)}}
+}
+func c02_cCase(k int64, ss ...*c02_ct) *c02_ct { return &c02_ct{K: "case", I: k, C: ss} }
+func c02_cDefault(ss ...*c02_ct) *c02_ct      { return &c02_ct{K: "default", C: ss} }
+func c02_cSw(subj *c02_ct, cases ...*c02_ct) *c02_ct {
+	return &c02_ct{K: "sw", C: append([]*c02_ct{subj}, cases...)}
+}
+func c02_cLoop(kind string, names []string, n int64, items []int64, body ...*c02_ct) *c02_ct {
+	return &c02_ct{K: "loop", S: kind, Ps: names, I: n, Is: items, C: []*c02_ct{c02_cB(body...)}}
 }
 
 func c02_cI(i int64) *c02_ct        { return &c02_ct{K: "i", I: i} }
@@ -80,6 +99,7 @@ func c02_cProg(stmts ...*c02_ct) *c02_ct        { return &c02_ct{K: "prog", C: s
 func c02Clone(t *c02_ct) *c02_ct {
 	u := *t
 	u.Ps = append([]string(nil), t.Ps...)
+	u.Is = append([]int64(nil), t.Is...)
 	u.C = make([]*c02_ct, len(t.C))
 	for i, c := range t.C {
 		u.C[i] = c02Clone(c)
@@ -113,6 +133,18 @@ func c02Sexp(t *c02_ct) string {
 			sb.WriteString(") ")
 		case "r":
 			sb.WriteString("r " + t.S + " ")
+		case "case":
+			fmt.Fprintf(&sb, "case %d ", t.I)
+		case "loop":
+			sb.WriteString("loop " + t.S + " ( ")
+			for _, p := range t.Ps {
+				sb.WriteString(p + " ")
+			}
+			fmt.Fprintf(&sb, ") %d ( ", t.I)
+			for _, it := range t.Is {
+				fmt.Fprintf(&sb, "%d ", it)
+			}
+			sb.WriteString(") ")
 		default:
 			sb.WriteString(t.K + " ")
 		}
@@ -225,6 +257,53 @@ func c02Stmt(t *c02_ct) string {
 		return strings.Join(t.Ps, ", ") + " := " + c02Expr(t.C[0])
 	case "ret":
 		return "return " + c02Expr(t.C[0])
+	case "if":
+		out := "if " + c02Expr(t.C[0]) + " " + c02Body(t.C[1].C)
+		if len(t.C[2].C) > 0 {
+			out += " else " + c02Body(t.C[2].C)
+		}
+		return out
+	case "sw":
+		var sb strings.Builder
+		sb.WriteString("switch " + c02Expr(t.C[0]) + " {\n")
+		for _, c := range t.C[1:] {
+			if c.K == "case" {
+				fmt.Fprintf(&sb, "case %d: ", c.I)
+			} else {
+				sb.WriteString("default: ")
+			}
+			ss := make([]string, len(c.C))
+			for i, st := range c.C {
+				ss[i] = c02Stmt(st)
+			}
+			sb.WriteString(strings.Join(ss, "; ") + "\n")
+		}
+		sb.WriteString("}")
+		return sb.String()
+	case "loop":
+		body := c02Body(t.C[0].C)
+		items := make([]string, len(t.Is))
+		for i, it := range t.Is {
+			items[i] = strconv.FormatInt(it, 10)
+		}
+		switch t.S {
+		case "for3":
+			return fmt.Sprintf("for %s := 0; %s < %d; %s++ %s", t.Ps[0], t.Ps[0], t.I, t.Ps[0], body)
+		case "cond":
+			return fmt.Sprintf("for %s < %d %s", t.Ps[0], t.I, body)
+		case "range1":
+			return fmt.Sprintf("for %s := range %d %s", t.Ps[0], t.I, body)
+		case "range2":
+			return fmt.Sprintf("for %s, %s := range [%s] %s", t.Ps[0], t.Ps[1], strings.Join(items, ", "), body)
+		case "forin":
+			return fmt.Sprintf("for %s in [%s] %s", t.Ps[0], strings.Join(items, ", "), body)
+		case "once":
+			ss := make([]string, 0, len(t.C[0].C)+1)
+			for _, st := range t.C[0].C {
+				ss = append(ss, c02Stmt(st))
+			}
+			return "for { " + strings.Join(append(ss, "break"), "; ") + " }"
+		}
 	}
 	return c02Expr(t)
 }
@@ -276,7 +355,11 @@ type c02Var struct {
 	name     string
 	ty       *c02_cty
 	writable bool
+	assign   bool // a function-typed variable declared by `:=` that may be given a new closure (`e = func…`)
 }
+
+// variables of scopes[level][from:] are declared inside a loop body that runs more than once
+type c02Hide struct{ level, from int }
 
 type c02Gen struct {
 	r        *RNG
@@ -288,6 +371,14 @@ type c02Gen struct {
 	routes   map[string]int
 	maxLit   int
 	wide     int
+	// block scopes (only inside functions)
+	blockDepth int
+	loopHide   []c02Hide      // the loops with more than one iteration we are inside of
+	hideFnUpTo int            // > 0: function- and container-typed variables of the function levels 1..hideFnUpTo are hidden (no call cycles through re-assigned closures)
+	hideActive int            // loopHide[:hideActive] is hidden from `visible` (while a closure that leaves the loop is generated)
+	blockKinds map[string]int // block statements generated, by kind
+	escapes    int            // closures assigned to a variable declared outside their block
+	afterDecl  int            // declarations made right after a block was closed
 	forms    map[string]int // write forms used: "=", "+=", "-=", "++", "--", "tuple=", "tuple:="; suffix " captured" when a target is an enclosing function's local
 }
 
@@ -391,6 +482,10 @@ func (g *c02Gen) declare(v c02Var) {
 // visible variables (innermost first, shadowing respected).  From a function at level L
 // the shallow mode only sees its own scope, its parent's and the globals.
 func (g *c02Gen) visible(pred func(c02Var) bool) []c02Var {
+	return g.visibleX(pred, false)
+}
+
+func (g *c02Gen) visibleX(pred func(c02Var) bool, hideExempt bool) []c02Var {
 	seen := map[string]bool{}
 	var out []c02Var
 	L := g.level()
@@ -403,6 +498,18 @@ func (g *c02Gen) visible(pred func(c02Var) bool) []c02Var {
 			}
 			seen[v.name] = true
 			if g.shallow && !(l == L || l == L-1 || l == 0) {
+				continue
+			}
+			hidden := false
+			for _, h := range g.loopHide[:g.hideActive] {
+				if h.level == l && i >= h.from {
+					hidden = true
+				}
+			}
+			if l >= 1 && l <= g.hideFnUpTo && (v.ty.K == 1 || v.ty.K == 2) && !hideExempt {
+				hidden = true
+			}
+			if hidden {
 				continue
 			}
 			if pred(v) {
@@ -477,10 +584,10 @@ func (g *c02Gen) fnLit(ty *c02_cty, name string) *c02_ct {
 		g.maxLit = g.level()
 	}
 	for i, p := range ps {
-		g.declare(c02Var{p, ty.Ps[i], ty.Ps[i].K == 0})
+		g.declare(c02Var{name: p, ty: ty.Ps[i], writable: ty.Ps[i].K == 0})
 	}
 	if name != "_" {
-		g.declare(c02Var{name, c02OpaqueFn, false})
+		g.declare(c02Var{name: name, ty: c02OpaqueFn, writable: false})
 	}
 	body := g.body(ty.Ret)
 	g.scopes = g.scopes[:len(g.scopes)-1]
@@ -494,7 +601,7 @@ func (g *c02Gen) body(ret *c02_cty) []*c02_ct {
 		for i := 0; i < 8; i++ {
 			name := g.fresh("w")
 			out = append(out, c02_cD(name, c02_cI(int64(g.r.Intn(10)))))
-			g.declare(c02Var{name, c02Int, true})
+			g.declare(c02Var{name: name, ty: c02Int, writable: true})
 		}
 		g.wide++
 	}
@@ -515,6 +622,14 @@ func (g *c02Gen) body(ret *c02_cty) []*c02_ct {
 // one generated statement (sometimes two) inside a function or at the top level
 func (g *c02Gen) stmt() []*c02_ct {
 	g.budget -= 2
+	if g.level() >= 1 && g.blockDepth < 3 && g.budget > 0 && g.r.Chance(24) {
+		return g.blockStmt()
+	}
+	if g.level() >= 1 && g.r.Chance(5) {
+		if st := g.escapeAssign(); st != nil {
+			return []*c02_ct{st}
+		}
+	}
 	x := g.r.Intn(100)
 	rem := g.maxDepth - g.level()
 	switch {
@@ -529,14 +644,14 @@ func (g *c02Gen) stmt() []*c02_ct {
 				es[i] = g.intExpr(1)
 			}
 			for _, n := range names {
-				g.declare(c02Var{n, c02Int, true})
+				g.declare(c02Var{name: n, ty: c02Int, writable: true})
 			}
 			g.form("tuple:=")
 			return []*c02_ct{c02_cMD(names, c02_cL(es...))}
 		}
 		name := g.fresh("v")
 		e := g.intExpr(2)
-		g.declare(c02Var{name, c02Int, true})
+		g.declare(c02Var{name: name, ty: c02Int, writable: true})
 		return []*c02_ct{c02_cD(name, e)}
 	case x < 50 && rem >= 1: // inner function
 		ty := g.randFnType(rem)
@@ -546,14 +661,14 @@ func (g *c02Gen) stmt() []*c02_ct {
 			if lit == nil {
 				return nil
 			}
-			g.declare(c02Var{name, ty, false})
+			g.declare(c02Var{name: name, ty: ty})
 			return []*c02_ct{lit}
 		}
 		lit := g.fnLit(ty, "_")
 		if lit == nil {
 			return nil
 		}
-		g.declare(c02Var{name, ty, false})
+		g.declare(c02Var{name: name, ty: ty, assign: g.level() >= 1})
 		return []*c02_ct{c02_cD(name, lit)}
 	case x < 72: // write an int binding (own, enclosing or global)
 		vs := g.visible(func(v c02Var) bool { return v.ty.K == 0 && v.writable })
@@ -582,7 +697,7 @@ func (g *c02Gen) stmt() []*c02_ct {
 			return nil
 		}
 		name := g.fresh("t")
-		g.declare(c02Var{name, ty, false})
+		g.declare(c02Var{name: name, ty: ty, writable: false})
 		return g.declStmts(name, e)
 	default: // a builtin that only observes: filter / each
 		f := g.expr(&c02_cty{K: 1, Ps: []*c02_cty{c02Int}, Ret: c02Int}, 1)
@@ -596,9 +711,248 @@ func (g *c02Gen) stmt() []*c02_ct {
 		g.routes[kind]++
 		name := g.fresh("o")
 		e := c02_cR(kind, g.intList(), f)
-		g.declare(c02Var{name, c02Obs, false})
+		g.declare(c02Var{name: name, ty: c02Obs, writable: false})
 		return []*c02_ct{c02_cD(name, e)}
 	}
+}
+
+// ---------------------------------------------------------------------------------------
+// block scopes: `if`/`else` bodies, `switch` cases, the loop forms.  Variables declared in a
+// block are visible to the generator until the block ends.  A closure made in a block leaves it
+// by being assigned to a function-typed variable declared outside (`e7 = func…`), and is then
+// called after the enclosing function declared further variables (behind the block, in sibling
+// blocks) or returned.
+//
+// Loop bodies that run more than once: the unchanged compiler gives a variable declared in a
+// loop body ONE slot for all iterations (recorded finding C01-loop-body-variable-shared; C01
+// owns it).  Here a closure that leaves such a loop never refers to a variable declared inside
+// the loop (those are hidden while it is generated), so one slot per loop and a fresh variable
+// per iteration cannot be told apart; loops with at most one iteration have no such restriction.
+
+func (g *c02Gen) enterBlock() int { g.blockDepth++; return len(g.scopes[g.level()]) }
+func (g *c02Gen) leaveBlock(mark int) {
+	g.blockDepth--
+	g.scopes[g.level()] = g.scopes[g.level()][:mark]
+}
+
+var c02BlockKinds = []string{"if", "if", "ifelse", "ifelse", "switch", "switch", "for3", "cond", "range1", "range2", "forin", "once"}
+
+func (g *c02Gen) blockStmt() []*c02_ct {
+	g.budget -= 3
+	if g.blockKinds == nil {
+		g.blockKinds = map[string]int{}
+	}
+	var out []*c02_ct
+	// a variable outside the block for the closure that will leave it
+	if outs := g.visibleX(func(v c02Var) bool { return v.assign }, true); len(outs) == 0 || g.r.Chance(40) {
+		ty := &c02_cty{K: 1, Ret: c02Int}
+		if g.r.Chance(50) {
+			ty.Ps = []*c02_cty{c02Int}
+		}
+		if g.r.Chance(20) {
+			ty = g.randFnType(1)
+		}
+		if lit := g.fnLit(ty, "_"); lit != nil {
+			name := g.fresh("e")
+			g.declare(c02Var{name: name, ty: ty, assign: true})
+			out = append(out, c02_cD(name, lit))
+		}
+	}
+	kind := Pick(g.r, c02BlockKinds)
+	g.blockKinds[kind]++
+	switch kind {
+	case "if":
+		out = append(out, c02_cIf(g.condExpr(), g.blockBody(nil), nil))
+	case "ifelse":
+		t := g.blockBody(nil)
+		out = append(out, c02_cIf(g.condExpr(), t, g.blockBody(nil)))
+	case "switch":
+		subj := g.intExpr(1)
+		var cases []*c02_ct
+		used := map[int64]bool{}
+		for i, n := 0, 1+g.r.Intn(3); i < n; i++ {
+			k := int64(g.r.Intn(10))
+			if used[k] {
+				continue
+			}
+			used[k] = true
+			cases = append(cases, c02_cCase(k, g.blockBody(nil)...))
+		}
+		if g.r.Chance(70) {
+			cases = append(cases, c02_cDefault(g.blockBody(nil)...))
+		}
+		out = append(out, c02_cSw(subj, cases...))
+	default:
+		out = append(out, g.loopStmt(kind)...)
+	}
+	// … and the enclosing function goes on declaring variables behind the closed block
+	if g.r.Chance(80) {
+		name := g.fresh("v")
+		e := g.intExpr(1)
+		g.declare(c02Var{name: name, ty: c02Int, writable: true})
+		g.afterDecl++
+		out = append(out, c02_cD(name, e))
+	}
+	return out
+}
+
+func (g *c02Gen) condExpr() *c02_ct {
+	if g.r.Chance(25) {
+		return c02_cI(int64(g.r.Intn(2)))
+	}
+	return g.intExpr(1)
+}
+
+// the statements of one block body.  `names` are the loop's own names, already declared by the caller.
+func (g *c02Gen) blockBody(tail []*c02_ct) []*c02_ct {
+	mark := g.enterBlock()
+	var out []*c02_ct
+	if g.r.Chance(85) {
+		name := g.fresh("b")
+		e := g.intExpr(1)
+		g.declare(c02Var{name: name, ty: c02Int, writable: true})
+		out = append(out, c02_cD(name, e))
+	}
+	for i, n := 0, g.r.Intn(3); i < n && g.budget > 0; i++ {
+		out = append(out, g.stmt()...)
+	}
+	if g.r.Chance(75) {
+		if st := g.escapeAssign(); st != nil {
+			out = append(out, st)
+		}
+	}
+	if g.r.Chance(25) && g.budget > 0 {
+		out = append(out, g.stmt()...)
+	}
+	g.leaveBlock(mark)
+	return append(out, tail...)
+}
+
+func (g *c02Gen) loopStmt(kind string) []*c02_ct {
+	var pre []*c02_ct
+	n := int64(g.r.Intn(4)) // iterations: 0..3
+	if g.r.Chance(40) {
+		n = 1
+	}
+	var items []int64
+	var names []string
+	var tail []*c02_ct
+	L := g.level()
+	switch kind {
+	case "cond":
+		k := g.fresh("k")
+		pre = append(pre, c02_cD(k, c02_cI(0)))
+		g.declare(c02Var{name: k, ty: c02Int})
+		names = []string{k}
+		tail = []*c02_ct{c02_cPost("++", k)}
+	case "once":
+		n = 1
+	}
+	mark := len(g.scopes[L]) // the loop's table begins here
+	switch kind {
+	case "for3":
+		names = []string{g.fresh("i")}
+		g.declare(c02Var{name: names[0], ty: c02Int})
+	case "range1":
+		names = []string{g.fresh("i")}
+		g.declare(c02Var{name: names[0], ty: c02Int, writable: true})
+	case "range2", "forin":
+		if n == 0 {
+			n = 2
+		}
+		for i := int64(0); i < n; i++ {
+			items = append(items, int64(g.r.Intn(10)))
+		}
+		names = []string{g.fresh("x")}
+		if kind == "range2" {
+			names = []string{g.fresh("i"), names[0]}
+		}
+		for _, nm := range names {
+			g.declare(c02Var{name: nm, ty: c02Int, writable: true})
+		}
+	}
+	if n > 1 {
+		g.loopHide = append(g.loopHide, c02Hide{L, mark})
+		g.blockKinds["loop with more than one iteration"]++
+	}
+	body := g.blockBody(tail)
+	if n > 1 {
+		g.loopHide = g.loopHide[:len(g.loopHide)-1]
+	}
+	g.scopes[L] = g.scopes[L][:mark]
+	if kind == "range2" || kind == "forin" {
+		n = 0
+	}
+	return append(pre, c02_cLoop(kind, names, n, items, body...))
+}
+
+// `e = func(…) { … }`: a variable declared outside gets a closure made here.  For closures that
+// return an int, half of the time the body is written around the most recently declared int
+// bindings (the block's own variables): it writes one and returns a sum with it.
+func (g *c02Gen) escapeAssign() *c02_ct {
+	vs := g.visibleX(func(v c02Var) bool { return v.assign }, true)
+	if len(vs) == 0 || g.level()+1 > g.maxDepth {
+		return nil
+	}
+	v := Pick(g.r, vs)
+	old, oldFn := g.hideActive, g.hideFnUpTo
+	g.hideActive = len(g.loopHide)
+	// the new closure calls no closure held in a variable of the enclosing functions: a variable
+	// that is re-assigned later could otherwise close a call cycle
+	if g.level() > g.hideFnUpTo {
+		g.hideFnUpTo = g.level()
+	}
+	defer func() { g.hideActive, g.hideFnUpTo = old, oldFn }()
+	var lit *c02_ct
+	if v.ty.Ret.K == 0 && g.r.Chance(60) {
+		lit = g.blockClosure(v.ty)
+	}
+	if lit == nil {
+		lit = g.fnLit(v.ty, "_")
+	}
+	if lit == nil {
+		return nil
+	}
+	g.escapes++
+	return c02_cA(v.name, lit)
+}
+
+func (g *c02Gen) blockClosure(ty *c02_cty) *c02_ct {
+	// the int bindings of the function we are in, most recent first
+	var near []c02Var
+	for _, w := range g.visible(func(w c02Var) bool { return w.ty.K == 0 && w.writable }) {
+		if g.levelOf(w.name) == g.level() && len(near) < 3 {
+			near = append(near, w)
+		}
+	}
+	if len(near) == 0 {
+		return nil
+	}
+	var ps []string
+	used := map[string]bool{}
+	for range ty.Ps {
+		p := Pick(g.r, c02ParamPool)
+		for used[p] {
+			p = Pick(g.r, c02ParamPool)
+		}
+		used[p] = true
+		ps = append(ps, p)
+	}
+	g.scopes = append(g.scopes, nil)
+	if g.level() > g.maxLit {
+		g.maxLit = g.level()
+	}
+	for i, p := range ps {
+		g.declare(c02Var{name: p, ty: ty.Ps[i], writable: ty.Ps[i].K == 0})
+	}
+	var body []*c02_ct
+	bv := Pick(g.r, near)
+	if g.r.Chance(60) {
+		body = append(body, g.writeStmt(bv))
+	}
+	body = append(body, c02_cRet(c02_cAdd(c02_cV(bv.name), g.intExpr(1))))
+	g.scopes = g.scopes[:len(g.scopes)-1]
+	return c02_cFn("_", ps, body...)
 }
 
 // `name := e`, where e may be the two-statement `go` route
@@ -829,14 +1183,14 @@ func c02Generate(r *RNG, shallow bool) *c02Case {
 		// globals declared by a tuple `:=`
 		a, b := g.fresh("n"), g.fresh("n")
 		main = append(main, c02_cMD([]string{a, b}, c02_cL(c02_cI(int64(r.Intn(10))), c02_cI(int64(r.Intn(10))))))
-		g.declare(c02Var{a, c02Int, true})
-		g.declare(c02Var{b, c02Int, true})
+		g.declare(c02Var{name: a, ty: c02Int, writable: true})
+		g.declare(c02Var{name: b, ty: c02Int, writable: true})
 		g.form("tuple:=")
 	} else {
 		for i := 0; i < 1+r.Intn(2); i++ {
 			name := g.fresh("n")
 			main = append(main, c02_cD(name, c02_cI(int64(r.Intn(10)))))
-			g.declare(c02Var{name, c02Int, true})
+			g.declare(c02Var{name: name, ty: c02Int, writable: true})
 		}
 	}
 	nf := 1 + r.Intn(3)
@@ -849,7 +1203,7 @@ func c02Generate(r *RNG, shallow bool) *c02Case {
 		} else {
 			st = c02_cD(name, g.fnLit(ty, "_"))
 		}
-		g.declare(c02Var{name, ty, false})
+		g.declare(c02Var{name: name, ty: ty, writable: false})
 		main = append(main, st)
 	}
 	// call events in a generated order
@@ -890,7 +1244,7 @@ func c02Generate(r *RNG, shallow bool) *c02Case {
 				continue
 			}
 			name := g.fresh("h")
-			g.declare(c02Var{name, v.ty.Ret, false})
+			g.declare(c02Var{name: name, ty: v.ty.Ret, writable: false})
 			c.host = append(c.host, c02_cD(name, c02_cCall(c02_cV(v.name), as...)))
 			continue
 		}
@@ -899,7 +1253,7 @@ func c02Generate(r *RNG, shallow bool) *c02Case {
 			continue
 		}
 		name := g.fresh("r")
-		g.declare(c02Var{name, ty, false})
+		g.declare(c02Var{name: name, ty: ty, writable: false})
 		main = append(main, g.declStmts(name, e)...)
 		if r.Chance(15) {
 			ws := g.visible(func(w c02Var) bool { return w.ty.K == 0 && w.writable })
@@ -992,7 +1346,32 @@ type c02Real struct {
 	NCells     int    `json:"nCells"`
 	FreeOps    int    `json:"freeOps"`
 	MainLocals int    `json:"mainLocals"`
+	Locals     string `json:"locals"` // LocalsCount of every function's code, sorted
 	CompileErr string `json:"compileErr"`
+}
+
+func c02CanonLocals(ns []int) string {
+	if len(ns) == 0 {
+		return "-"
+	}
+	sort.Ints(ns)
+	ss := make([]string, len(ns))
+	for i, n := range ns {
+		ss[i] = strconv.Itoa(n)
+	}
+	return strings.Join(ss, ",")
+}
+
+func c02ParseLocals(s string) string {
+	if s == "-" || s == "" {
+		return "-"
+	}
+	var ns []int
+	for _, f := range strings.Split(s, ",") {
+		n, _ := strconv.Atoi(f)
+		ns = append(ns, n)
+	}
+	return c02CanonLocals(ns)
 }
 
 // canonical form of the MAKE_CELL groups: pairs sorted inside a group, groups sorted
@@ -1037,7 +1416,11 @@ func c02ParseGroups(s string) string {
 
 func c02Inspect(code *compiler.Code, r *c02Real) {
 	var gs [][][2]int
-	for _, cc := range code.Flatten() {
+	var locals []int
+	for ci, cc := range code.Flatten() {
+		if ci > 0 {
+			locals = append(locals, cc.LocalsCount())
+		}
 		var cur [][2]int
 		n := cc.InstructionCount()
 		for i := 0; i < n; {
@@ -1064,6 +1447,7 @@ func c02Inspect(code *compiler.Code, r *c02Real) {
 		}
 	}
 	r.Groups = c02CanonGroups(gs)
+	r.Locals = c02CanonLocals(locals)
 	r.MainLocals = code.LocalsCount()
 }
 
@@ -1174,11 +1558,30 @@ type c02Verdict struct {
 
 func c02Judge(e *Env, c *c02Case, r c02Real, reply string) (v c02Verdict) {
 	f := strings.Split(reply, "\t")
-	if len(f) != 4 {
+	if len(f) != 5 {
 		v.mismatch = "oracle reply: " + reply
 		return
 	}
 	impl, spec, groups, deep := f[0], f[1], c02ParseGroups(f[2]), f[3] == "true"
+	// the `go` route is rendered with a wrapper function `func(c, f, a…) { c <- f(a…) }` the model does not have
+	modelLocals := f[4]
+	var goWrap func(t *c02_ct)
+	goWrap = func(t *c02_ct) {
+		if t.K == "r" && t.S == "go" {
+			if modelLocals == "-" {
+				modelLocals = strconv.Itoa(len(t.C))
+			} else {
+				modelLocals += "," + strconv.Itoa(len(t.C))
+			}
+		}
+		for _, ch := range t.C {
+			goWrap(ch)
+		}
+	}
+	for _, t := range c.main {
+		goWrap(t)
+	}
+	locals := c02ParseLocals(modelLocals)
 	v.impl, v.specOut = impl, spec
 	if r.CompileErr != "" {
 		v.mismatch = "the real compiler rejects a program the model resolves: " + r.CompileErr
@@ -1187,6 +1590,8 @@ func c02Judge(e *Env, c *c02Case, r c02Real, reply string) (v c02Verdict) {
 	switch {
 	case groups != r.Groups:
 		v.mismatch = fmt.Sprintf("MAKE_CELL operands differ: real %s, model %s", r.Groups, groups)
+	case locals != r.Locals:
+		v.mismatch = fmt.Sprintf("LocalsCount of the functions differ: real %s, model %s (block variables keep their slot after the block is closed)", r.Locals, locals)
 	case deep != r.Deep:
 		v.mismatch = "guard (framesBack >= 1) differs between bytecode and model"
 	case impl != "undef" && impl != r.Outcome:
@@ -1262,6 +1667,13 @@ func c02RunCase(e *Env, c *c02Case, record bool) c02Verdict {
 			e.R.H("write_forms", k)
 		}
 	}
+	for k, n := range c.gen.blockKinds {
+		for i := 0; i < n; i++ {
+			e.R.H("block_kinds", k)
+		}
+	}
+	e.R.H("closures_leaving_their_block", strconv.Itoa(min(c.gen.escapes, 6)))
+	e.R.H("declarations_right_after_a_closed_block", strconv.Itoa(min(c.gen.afterDecl, 6)))
 	if v.mismatch != "" {
 		goOut, impl, what := r.Outcome+" "+r.ErrText, v.impl, v.mismatch
 		c02Pending = append(c02Pending, func() { e.R.Mismatch(key, goOut, impl, what) })
@@ -1316,9 +1728,13 @@ func c02Shrink(c *c02Case, bad0 func(*c02Case) bool) *c02Case {
 		}
 		lists = append(lists, &m.main, &m.host)
 		var walk func(t *c02_ct)
+		keepLast := map[*[]*c02_ct]bool{}
 		walk = func(t *c02_ct) {
-			if t.K == "fn" {
+			if t.K == "fn" || t.K == "b" || t.K == "case" || t.K == "default" {
 				lists = append(lists, &t.C)
+			}
+			if t.K == "loop" && t.S == "cond" {
+				keepLast[&t.C[0].C] = true // the counter's `k++`: without it the loop never ends
 			}
 			for _, c := range t.C {
 				walk(c)
@@ -1331,6 +1747,9 @@ func c02Shrink(c *c02Case, bad0 func(*c02Case) bool) *c02Case {
 			for i := 0; i < len(*lp); i++ {
 				if li >= 2 && (*lp)[i].K == "ret" {
 					continue // keep function bodies well-formed (an empty body is another story)
+				}
+				if keepLast[lp] && i == len(*lp)-1 {
+					continue
 				}
 				old := *lp
 				nw := append(append([]*c02_ct{}, old[:i]...), old[i+1:]...)
@@ -1469,6 +1888,287 @@ func c02DirectedForms() []*c02Case {
 	}
 }
 
+// directed cases about block scopes: a closure made in a block (every kind) leaves it through a
+// variable declared outside, the enclosing function then declares further variables (behind the
+// block, in sibling blocks, in later loops), and the closure and the new variables are read
+// and written: each must keep its own value.
+func c02DirectedBlocks() []*c02Case {
+	mk := func(label string, obs []string, main ...*c02_ct) *c02Case {
+		return &c02Case{main: main, obs: obs, label: label, forms: true, gen: &c02Gen{routes: map[string]int{}}}
+	}
+	V, I, L, D, A, Ret := c02_cV, c02_cI, c02_cL, c02_cD, c02_cA, c02_cRet
+	fn := func(ps []string, body ...*c02_ct) *c02_ct { return c02_cFn("_", ps, body...) }
+	zero := func() *c02_ct { return fn(nil, Ret(I(0))) }
+	get := func(x string) *c02_ct { return fn(nil, Ret(V(x))) }
+	bump := func(x string, by int64) *c02_ct { return fn(nil, c02_cOp("+=", x, I(by)), Ret(V(x))) }
+	call := func(f string) *c02_ct { return c02_cCall(V(f)) }
+	ss := func(xs ...*c02_ct) []*c02_ct { return xs }
+	run := func(f string) []*c02_ct { return ss(D("r", c02_cCall(V(f)))) }
+	return []*c02Case{
+		mk("block: closure leaves an if body, a sibling if body declares a variable", []string{"r"},
+			append(ss(c02_cFn("a", nil,
+				D("get", zero()),
+				c02_cIf(I(1), ss(D("secret", I(42)), A("get", get("secret"))), nil),
+				c02_cIf(I(1), ss(D("other", I(7))), nil),
+				Ret(call("get")))), run("a")...)...),
+		mk("block: closure writes its if-body variable while a later loop declares variables", []string{"r"},
+			append(ss(c02_cFn("c", nil,
+				D("bump", zero()),
+				c02_cIf(I(1), ss(D("n", I(0)), A("bump", bump("n", 100))), nil),
+				D("acc", I(0)),
+				c02_cLoop("for3", []string{"i"}, 3, nil, D("sq", c02_cAdd(V("i"), V("i"))), D("t", call("bump")), A("acc", c02_cAdd(V("acc"), V("sq")))),
+				Ret(L(V("acc"), call("bump"))))), run("c")...)...),
+		mk("block: closure leaves an else body, the function declares variables behind the if", []string{"r"},
+			append(ss(c02_cFn("a", []string{"p"},
+				D("get", zero()), D("set", zero()),
+				c02_cIf(V("p"), ss(D("x", I(1))), ss(D("y", I(20)), A("get", get("y")), A("set", bump("y", 5)))),
+				D("later", I(300)), D("more", I(4000)),
+				D("s", call("set")),
+				Ret(L(call("get"), V("later"), V("more"), V("s"))))), D("r", c02_cCall(V("a"), I(0))))...),
+		mk("block: closures leave two switch cases and the default", []string{"r", "s", "t"},
+			c02_cFn("a", []string{"p"},
+				D("get", zero()),
+				c02_cSw(V("p"),
+					c02_cCase(1, D("one", I(11)), A("get", get("one"))),
+					c02_cCase(2, D("two", I(22)), A("get", bump("two", 1))),
+					c02_cDefault(D("dflt", I(33)), A("get", get("dflt")))),
+				D("after", c02_cAdd(V("p"), I(1000))),
+				c02_cIf(I(1), ss(D("inner", I(5000))), nil),
+				Ret(L(call("get"), V("after")))),
+			D("r", c02_cCall(V("a"), I(1))), D("s", c02_cCall(V("a"), I(2))), D("t", c02_cCall(V("a"), I(7)))),
+		mk("block: the init variable and a body variable of a one-iteration for loop are captured", []string{"r"},
+			append(ss(c02_cFn("a", nil,
+				D("gi", zero()), D("gb", zero()),
+				c02_cLoop("for3", []string{"i"}, 1, nil, D("body", I(50)), A("gi", get("i")), A("gb", bump("body", 1))),
+				D("u", I(600)), D("w", I(7000)),
+				Ret(L(call("gi"), call("gb"), V("u"), V("w"), call("gb"))))), run("a")...)...),
+		mk("block: range, for-in, condition and bare loops with one iteration", []string{"r"},
+			append(ss(c02_cFn("a", nil,
+				D("g1", zero()), D("g2", zero()), D("g3", zero()), D("g4", zero()), D("k", I(0)),
+				c02_cLoop("range2", []string{"i", "x"}, 0, []int64{8}, D("b1", c02_cAdd(V("x"), V("i"))), A("g1", get("b1"))),
+				c02_cLoop("forin", []string{"y"}, 0, []int64{9}, D("b2", V("y")), A("g2", bump("b2", 10))),
+				c02_cLoop("cond", []string{"k"}, 1, nil, D("b3", I(30)), A("g3", get("b3")), c02_cPost("++", "k")),
+				c02_cLoop("once", nil, 1, nil, D("b4", I(40)), A("g4", get("b4"))),
+				c02_cLoop("range1", []string{"j"}, 2, nil, D("b5", V("j"))),
+				D("z1", I(100)), D("z2", I(200)), D("z3", I(300)), D("z4", I(400)),
+				Ret(L(call("g1"), call("g2"), call("g3"), call("g4"), V("z1"), V("z2"), V("z3"), V("z4"), call("g2"))))), run("a")...)...),
+		mk("block: nested blocks, the closure leaves three of them", []string{"r"},
+			append(ss(c02_cFn("a", []string{"p"},
+				D("get", zero()),
+				c02_cIf(V("p"), ss(D("l1", I(1)),
+					c02_cSw(V("l1"), c02_cCase(1, D("l2", I(2)),
+						c02_cLoop("once", nil, 1, nil, D("l3", I(3)), A("get", fn(nil, Ret(c02_cAdd(c02_cAdd(V("l1"), V("l2")), V("l3"))))))))), nil),
+				c02_cIf(V("p"), ss(D("m1", I(10)), c02_cIf(V("p"), ss(D("m2", I(20)), D("m3", I(30))), nil)), nil),
+				D("n1", I(100)),
+				Ret(L(call("get"), V("n1"))))), D("r", c02_cCall(V("a"), I(1))))...),
+		mk("block: a write to a variable declared behind the block is not seen through the closure", []string{"r"},
+			append(ss(c02_cFn("a", nil,
+				D("get", zero()),
+				c02_cIf(I(1), ss(D("mine", I(1)), A("get", get("mine"))), nil),
+				D("later", I(2)),
+				A("later", I(3)), c02_cOp("+=", "later", I(10)),
+				D("set", fn([]string{"q"}, A("later", V("q")), Ret(V("later")))),
+				D("s", c02_cCall(V("set"), I(99))),
+				Ret(L(call("get"), V("later"), V("s"))))), run("a")...)...),
+		mk("block: a named function declared in a block captures a block variable", []string{"r"},
+			append(ss(c02_cFn("a", nil,
+				D("keep", zero()),
+				c02_cIf(I(1), ss(D("bv", I(5)), c02_cFn("inner", nil, c02_cPost("++", "bv"), Ret(V("bv"))), A("keep", fn(nil, Ret(c02_cCall(V("inner")))))), nil),
+				D("x1", I(70)), D("x2", I(80)),
+				Ret(L(call("keep"), call("keep"), V("x1"), V("x2"))))), run("a")...)...),
+	}
+}
+
+// ---------------------------------------------------------------------------------------
+// the slot allocator on its own: a function whose body is a generated tree of blocks (every
+// kind) and declarations `vN := <int>`; the local slots the REAL compiler gave the variables
+// (the STORE_FAST operands in instruction order, first occurrences) against `FScope.claims`
+// of the model for the same open / close / declare sequence; LocalsCount against the final count.
+
+type c02SlotGen struct {
+	r      *RNG
+	ctr    int
+	ops    []string
+	closed bool // a block has been closed
+	after  int  // declarations made after some block was closed
+	kinds  map[string]int
+}
+
+func (g *c02SlotGen) decl(prefix string) string {
+	g.ctr++
+	name := fmt.Sprintf("%s%d", prefix, g.ctr)
+	g.ops = append(g.ops, "d:"+name)
+	if g.closed {
+		g.after++
+	}
+	return name
+}
+func (g *c02SlotGen) open()  { g.ops = append(g.ops, "o") }
+func (g *c02SlotGen) close() { g.ops = append(g.ops, "c"); g.closed = true }
+
+func (g *c02SlotGen) items(depth int) []string {
+	var out []string
+	for i, n := 0, g.r.Intn(4); i < n; i++ {
+		if depth >= 3 || g.r.Chance(45) {
+			out = append(out, fmt.Sprintf("%s := %d", g.decl("v"), g.r.Intn(100)))
+			continue
+		}
+		out = append(out, g.block(depth+1))
+	}
+	return out
+}
+
+func (g *c02SlotGen) body(depth int) string {
+	g.open()
+	s := "{ " + strings.Join(g.items(depth), "; ") + " }"
+	g.close()
+	return s
+}
+
+func (g *c02SlotGen) block(depth int) string {
+	kind := Pick(g.r, c02BlockKinds)
+	g.kinds[kind]++
+	switch kind {
+	case "if":
+		return "if " + strconv.Itoa(g.r.Intn(2)) + " " + g.body(depth)
+	case "ifelse":
+		t := g.body(depth)
+		return "if " + strconv.Itoa(g.r.Intn(2)) + " " + t + " else " + g.body(depth)
+	case "switch":
+		var sb strings.Builder
+		sb.WriteString("switch " + strconv.Itoa(g.r.Intn(4)) + " {\n")
+		n := 1 + g.r.Intn(3)
+		for i := 0; i < n; i++ {
+			g.open()
+			sb.WriteString(fmt.Sprintf("case %d: ", i) + strings.Join(g.items(depth), "; ") + "\n")
+			g.close()
+		}
+		if g.r.Bool() {
+			g.open()
+			sb.WriteString("default: " + strings.Join(g.items(depth), "; ") + "\n")
+			g.close()
+		}
+		sb.WriteString("}")
+		return sb.String()
+	case "for3":
+		g.open()
+		i := g.decl("i")
+		s := fmt.Sprintf("for %s := 0; %s < %d; %s++ %s", i, i, g.r.Intn(3), i, g.body(depth))
+		g.close()
+		return s
+	case "range1":
+		g.open()
+		i := g.decl("i")
+		s := fmt.Sprintf("for %s := range %d %s", i, g.r.Intn(3), g.body(depth))
+		g.close()
+		return s
+	case "range2":
+		g.open()
+		i := g.decl("i")
+		x := g.decl("x")
+		s := fmt.Sprintf("for %s, %s := range [4, 5] %s", i, x, g.body(depth))
+		g.close()
+		return s
+	case "forin":
+		g.open()
+		x := g.decl("x")
+		s := fmt.Sprintf("for %s in [6] %s", x, g.body(depth))
+		g.close()
+		return s
+	case "cond":
+		g.open()
+		s := "for 0 " + g.body(depth)
+		g.close()
+		return s
+	default: // once
+		g.open()
+		g.open()
+		its := append(g.items(depth), "break")
+		g.close()
+		g.close()
+		return "for { " + strings.Join(its, "; ") + " }"
+	}
+}
+
+func c02SlotCases(e *Env, n int) {
+	rng := e.Rng.Fork()
+	for i := 0; i < n; i++ {
+		g := &c02SlotGen{r: rng.Fork(), kinds: map[string]int{}}
+		nparams := g.r.Intn(3)
+		named := g.r.Bool()
+		ps := []string{"p", "q"}[:nparams]
+		items := g.items(0)
+		hdr := "f := func(" + strings.Join(ps, ", ") + ")"
+		count := nparams
+		if named {
+			hdr = "func f(" + strings.Join(ps, ", ") + ")"
+			count++
+		}
+		src := hdr + " { " + strings.Join(append(items, "return 0"), "; ") + " }\nf"
+		real, realCount, cerr := c02RealSlots(src)
+		reply := e.O.Ask(append([]string{"C02", "slots", strconv.Itoa(count)}, g.ops...)...)
+		f := strings.Split(reply, "\t")
+		e.R.Case(src, g.after > 0)
+		for k, c := range g.kinds {
+			for j := 0; j < c; j++ {
+				e.R.H("slot_sequences_block_kinds", k)
+			}
+		}
+		e.R.H("slot_sequences_declarations_after_a_closed_block", strconv.Itoa(min(g.after, 8)))
+		if len(f) != 3 || f[0] != "ok" {
+			e.R.Mismatch(src, real, reply, "oracle reply to the slots request")
+			continue
+		}
+		if cerr != "" {
+			e.R.Mismatch(src, "compile: "+cerr, f[1], "the real compiler rejects a generated block program")
+			continue
+		}
+		if real != f[1] || strconv.Itoa(realCount) != f[2] {
+			e.R.Mismatch(src, fmt.Sprintf("slots %s, LocalsCount %d", real, realCount), fmt.Sprintf("slots %s, count %s", f[1], f[2]),
+				"local slots of the variables in declaration order (STORE_FAST operands of the real bytecode vs FScope.claims): a block variable keeps its slot after the block is closed")
+		}
+	}
+}
+
+// the STORE_FAST operands of the first function's code in instruction order (first occurrences)
+func c02RealSlots(src string) (slots string, localsCount int, cerr string) {
+	defer func() {
+		if p := recover(); p != nil {
+			cerr = fmt.Sprintf("panic: %v", p)
+		}
+	}()
+	prog, err := parser.Parse(context.Background(), src)
+	if err != nil {
+		return "", 0, err.Error()
+	}
+	code, err := compiler.Compile(prog)
+	if err != nil {
+		return "", 0, err.Error()
+	}
+	all := code.Flatten()
+	if len(all) < 2 {
+		return "", 0, "no function code"
+	}
+	cc := all[1]
+	seen := map[int]bool{}
+	var ss []string
+	for i := 0; i < cc.InstructionCount(); {
+		o := cc.Instruction(i)
+		if o == op.StoreFast {
+			a := int(cc.Instruction(i + 1))
+			if !seen[a] {
+				seen[a] = true
+				ss = append(ss, strconv.Itoa(a))
+			}
+		}
+		i += 1 + op.GetInfo(o).OperandCount
+	}
+	if len(ss) == 0 {
+		return "-", cc.LocalsCount(), ""
+	}
+	return strings.Join(ss, ","), cc.LocalsCount(), ""
+}
+
 func c02DirectedHost() *c02Case {
 	// the same f, every step made from Go: vm.Get("f") -> Call(1) -> Call(2) -> Call(3)
 	abc := c02_cFn("f", []string{"a"}, c02_cRet(c02_cFn("_", []string{"b"}, c02_cRet(c02_cFn("_", []string{"c"}, c02_cRet(c02_cAdd(c02_cAdd(c02_cV("a"), c02_cV("b")), c02_cV("c"))))))))
@@ -1483,22 +2183,33 @@ func c02_runC02(e *Env) {
 		"locals declared by `x := e` and `a, b := [..]`), escaping by return, list, map, " +
 		"argument, list.map/filter/each, sorted, try (with failing first thunk), spawn().wait(), go+channel, vm.Get+vm.Call from Go, " +
 		"then 3-9 call events in a generated order; 70% of programs are generated so that no capture reaches past the literal's own frame. " +
+		"Inside functions about a quarter of the statements are block statements (if, if/else, switch with 1-3 cases and default, the loop forms " +
+		"`for i := 0; i < n; i++`, `for k < n`, `for i := range n`, `for i, x := range [..]`, `for x in [..]`, `for { ..; break }` with 0-3 iterations, nested up to 3 deep) " +
+		"whose bodies declare variables, contain any generated statement and give a closure made there to a variable declared outside the block, " +
+		"after which the function declares further variables (a closure that leaves a loop of more than one iteration does not refer to variables declared in that loop: " +
+		"recorded finding C01-loop-body-variable-shared). A second stream: functions that are trees of blocks and declarations only, the real STORE_FAST operands and " +
+		"LocalsCount against the model's slot allocator (non-trivial: a declaration follows a closed block). " +
 		"A case is one program (+ host steps); distinct by its text; non-trivial when the real bytecode creates a cell and reads or " +
 		"writes a free variable"
 	n := 6000
 	if !e.Quick {
 		n = 100000
 	}
-	for _, c := range append(append(c02Directed(), c02DirectedHost()), c02DirectedForms()...) {
+	for _, c := range append(append(append(c02Directed(), c02DirectedHost()), c02DirectedForms()...), c02DirectedBlocks()...) {
 		v := c02RunCase(e, c, true)
 		c02Flush()
 		e.R.H("directed", c.label+" => "+map[bool]string{true: "violates", false: "ok"}[v.spec != ""])
 	}
+	nSlots := 400
+	if !e.Quick {
+		nSlots = 5000
+	}
+	c02SlotCases(e, nSlots)
 	rng := e.Rng.Fork()
 	shrunk := 0
 	bad := 0
 	start := time.Now()
-	budget := 150 * time.Second
+	budget := 130 * time.Second
 	if !e.Quick {
 		budget = 25 * time.Minute
 	}
